@@ -133,6 +133,19 @@ func HashToBig(h [32]byte) *big.Int {
 // carry. chain is the full header list from genesis through prev (index ==
 // height); ts is the new header's timestamp.
 func RequiredBits(p *chaincfg.Params, chain []wire.BlockHeader, ts time.Time) uint32 {
+	return requiredBits(p, chain, ts, true)
+}
+
+// UnclampedBits is what RequiredBits would be if the actual timespan of the
+// closing retarget period were not limited to [span/4, span*4]: the bits a
+// client that forgot (or mis-sized) the limits would expect. It differs from
+// RequiredBits only at a retarget boundary whose period ran more than four
+// times too fast or too slow.
+func UnclampedBits(p *chaincfg.Params, chain []wire.BlockHeader, ts time.Time) uint32 {
+	return requiredBits(p, chain, ts, false)
+}
+
+func requiredBits(p *chaincfg.Params, chain []wire.BlockHeader, ts time.Time, clamp bool) uint32 {
 	if p.PoWNoRetargeting {
 		return p.PowLimitBits
 	}
@@ -160,10 +173,14 @@ func RequiredBits(p *chaincfg.Params, chain []wire.BlockHeader, ts time.Time) ui
 	span := int64(p.TargetTimespan / time.Second)
 	minSpan := span / p.RetargetAdjustmentFactor
 	maxSpan := span * p.RetargetAdjustmentFactor
-	if actual < minSpan {
-		actual = minSpan
-	} else if actual > maxSpan {
-		actual = maxSpan
+	if clamp {
+		if actual < minSpan {
+			actual = minSpan
+		} else if actual > maxSpan {
+			actual = maxSpan
+		}
+	} else if actual < 1 {
+		actual = 1
 	}
 	old := CompactToBig(prev.Bits)
 	if p.EnforceBIP94 {
